@@ -118,3 +118,18 @@ def nontrivial(o):
     rel = {tuple(e) for e in c["e"]}
     chain = any(len(s) >= 3 and any((min(a, b), max(a, b)) not in rel for a in s for b in s if a != b) for s in seqs)
     return len(seqs) >= 2 or chain
+
+
+MANIFEST = {
+    "text": ("Grouping.tla states the result of group_sound_events on graphs over the input positions (partition, input order "
+             "inside blocks, same block iff connected, reachability as an iterated closure cross-checked by TLC against "
+             "Warshall, the least-equivalence law and the equivalence laws); MC_Grouping.tla is the implementation as a state "
+             "machine (one step per unordered pair building the symmetric matrix and the call log, breadth-first component "
+             "labelling, regrouping by label) and TLC proves Impl => Req and termination for every graph on <= 5 nodes "
+             "(quick) / <= 6 nodes (thorough, 33 868 graphs); every graph is then run on the real function with a logging "
+             "table-lookup comparison function, twice (distinct / identical-up-to-uuid events), plus random graphs on 7-12 "
+             "nodes, and TLC validates sequences and call log clause by clause."),
+    "note": ("trusted: TLC, binder checks/c13.py (encoder: positions by uuid); exhaustive up to 6 nodes, sampled 7-12; the "
+             "input list is assumed to hold distinct events and the comparison function to be symmetric (quantifier of the statement)"),
+    "design_ref": "DESIGN.md section 4 C13",
+}
